@@ -34,6 +34,11 @@
        jitter class of MakeUniform (the expected values are those of the exact mesh, compared with a wider tolerance)
      * all blocks of an assembly have the same cross-section area (atoms of a block = N * height * area)
      * queries are stated for windows inside the assembly, 0 <= lo < hi <= top
+   Exploration bounds (not semantics): at most one Snap, explored from the profiles in SnapProfiles; after a Snap only the
+   mass-conserving variant (flag True) is re-meshed further; Solve / MapBack only on histories without a Snap; fuel layouts
+   are enumerated only where they matter (Snap), else the assembly is a fuel assembly whose first block is the fuel block.
+   Not modelled: the choice of the source block a new block is copied from (xsType majority rule), setBlockMesh with a mesh
+   that has None entries or is too short (the code then stops half way with a warning), multigroup pin-level parameters.
 *)
 EXTENDS Integers, Sequences, FiniteSets, TLC, Json, SequencesExt, FiniteSetsExt, Rational
 
